@@ -118,6 +118,16 @@ func main() {
 			opUpdTeam(2, "ops", "", false, 9, []string{"name", "enabled", "name"}), opUpdOrg(1, "globex", "d", false, 0, []string{"name", "name", "description"}),
 			opDelToken(5), opDelOrg(1)},
 	}
+	// in-place mutations (token revoke/update/rotate, node state, promote/demote) applied between
+	// Snapshot() and Persist(): every prefix of these histories is held and persisted at the end
+	directed = append(directed, []op{
+		opMkToken(tokenE("tA", "p1")), opMkToken(tokenE("tB", "p1")), opRevoke(1),
+		opUpdToken(2, "tC", "d", "read", 7000, []string{"name", "description", "permissions", "expires_at"}),
+		opRotate(1, "h9", "p2"), opRotate(2, "h8", "p2"), opUpdToken(1, "tZ", "", "", 0, []string{"name"}), opDelToken(2),
+	}, []op{
+		opAddNode(craft.NodeInfo{ID: "n1", Role: "writer", State: "healthy"}), opAddNode(craft.NodeInfo{ID: "n2", Role: "writer", State: "healthy"}),
+		opPromote("n1", ""), opNodeState("n1", "unhealthy"), opPromote("n2", "n1"), opDemote("n2"), opCompactor("n1", ""), opNodeState("n2", "dead"),
+	})
 	// every pre-validation clause failing at the LAST position of a batch whose first op is fine
 	zc := f2("db1")
 	zc.ct = zeroSec
@@ -130,10 +140,18 @@ func main() {
 	refused = append(refused, opBatch([]batchItem{{k: 'r', f: f1("db1")}, {k: 'u', f: f2("db2")}, {k: 'd', path: "db1/m/f1.parquet"}}))
 	directed = append(directed, refused)
 	directed = append(directed, membershipDirected()...)
+	directed = append(directed, limitDirected()...)
 	for _, ops := range directed {
 		cfg := full
-		for k := 0; k <= len(ops); k++ {
-			cfg.replayAt = append(cfg.replayAt, k)
+		if len(ops) <= 14 {
+			for k := 0; k <= len(ops); k++ {
+				cfg.replayAt = append(cfg.replayAt, k)
+			}
+		} else {
+			cfg.replayAt = []int{len(ops) / 2, len(ops) - 1}
+		}
+		for k := 1; k < len(ops); k++ {
+			cfg.holdAt = append(cfg.holdAt, k)
 		}
 		runCase(c, ops, cfg)
 	}
@@ -148,6 +166,9 @@ func main() {
 	exh := 0
 	for n := 1; n <= maxLen; n++ {
 		cfg := runCfg{c22: true, quiet: true}
+		if n >= 2 {
+			cfg.holdAt = []int{n - 1}
+		}
 		if n <= 3 {
 			for k := 1; k < n; k++ {
 				cfg.replayAt = append(cfg.replayAt, k)
@@ -209,6 +230,7 @@ func main() {
 		}
 		for j := 0; j < nrep; j++ {
 			cfg.replayAt = append(cfg.replayAt, r.Range(0, ln))
+			cfg.holdAt = append(cfg.holdAt, r.Range(1, ln-1))
 		}
 		runCase(c, ops, cfg)
 	}
